@@ -47,6 +47,12 @@ STRUCTS = {
     "list_dict": [{"x": 0, "y": 1}, 2],
     "deep": {"a": [0, {"x": 1, "y": 2}], "b": 3},
     "deep2": [[0, 1], {"p": [2], "q": 3}, 4],
+    # names that spell another field's path (with the separators a flattened name might use), sibling lists with the
+    # same inner keys
+    "dotted": {"a": {"b": 0}, "a.b": 1, "a_b": 2},
+    "under": {"a": {"b": 0}, "a__b": 1},
+    "twins": {"tx": [{"en": 0}], "rx": [{"en": 1}, {"en": 2}]},
+    "index_names": {"x": [0, 1], "x.0": 2, "x__1": 3},
 }
 
 
